@@ -138,7 +138,38 @@ SdrModifiedForever(r) ==
            [rule |-> "getsdr", when |-> <<InSess, IsStorage(35)>>, datagrams |-> Now(InSessReply(11, 35, 0, <<255, 255, 1, 0, 81, 2, 10>>))] >>
       b == Script("sdr-modified-" \o ToString(r[1]) \o "-" \o ToString(r[2]), "sdr", "modified", r, rules, << Quiet(OpenCall), TimedCall(SdrCall, r[1], TRUE) >>)
   IN [b EXCEPT !.steps = << [k |-> "rules", rules |-> rules, state |-> [t |-> 100]] >> \o Tail(@)]
-Scripts == IF Family = "metrics" THEN MetricScripts ELSE IF Family = "retrytime" THEN RetryTimeScripts ELSE
+\* ---- the library's own socket transport with the datagrams judged (not only the timing): what reaches the BMC over a
+\* real socket is what the properties say, also when the reply is slow, undecodable at the lowest level, or followed by a
+\* stray datagram
+WireScript(id, insess, kind, r, rules, call) ==
+  [id |-> id, transport |-> "udp", prefix |-> IF insess THEN "hs" ELSE "", opts |-> [timeoutMs |-> r[2], lateMs |-> r[2] * 2],
+   session |-> SessionRecipes(S),
+   info |-> [family |-> "udpwire", insess |-> insess, notx |-> FALSE, integLen |-> S.integLen, bmcSid |-> S.bmcSid, kind |-> kind, timeoutMs |-> r[2]],
+   steps |-> << [k |-> "rules", rules |-> rules, state |-> [b |-> 0]], call >>]
+WireCall(prop, r) == RawCall("sess") @@ [ctx |-> [ms |-> r[1]],
+   exp |-> [prop |-> prop, outcome |-> "timed", deadlineMs |-> r[1], allowMs |-> Allow(r[1]), mustErr |-> FALSE, mustOk |-> TRUE]]
+Guid16 == [i \in 1..16 |-> (17 * i + 3) % 256]
+WireScripts ==
+  \* an in-session reply that takes three quarters of the per-attempt timeout: the request is transmitted once
+  { WireScript("wire-slow-" \o ToString(r[2]), TRUE, "slow", r,
+               << [rule |-> "slow", when |-> <<InSess>>, delayMs |-> (r[2] * 3) \div 4, datagrams |-> NowValid(InSessReply(11, 16, 0, <<5>>), 0)] >>,
+               WireCall("C03", r)) : r \in {<<6000, 800>>, <<6000, 1200>>} }
+  \* the first reply is not even RMCP (empty, shorter than the header, another version): the request is sent again
+  \* (with the next sequence number) and the answer to that is returned
+  \cup { WireScript("wire-runt-" \o ToString(g) \o "-" \o ToString(r[2]), TRUE, "runt", r,
+                    << [rule |-> "runt", when |-> <<InSess>>, ifstate |-> [name |-> "b", lt |-> 1], effects |-> << [k |-> "inc", name |-> "b"] >>,
+                        datagrams |-> Now(B(<< <<>>, <<6>>, <<6, 0, 255>>, <<7, 0, 255, 7, 1, 2, 3, 4>> >>[g]))],
+                       [rule |-> "answer", when |-> <<InSess>>, datagrams |-> NowValid(InSessReply(11, 16, 0, <<5>>), 0)] >>,
+                    WireCall("C10", r)) : g \in 1..4, r \in {<<6000, 300>>} }
+  \* session-less: the first transmission is lost; the retransmission is answered, and a datagram that answers some
+  \* other command sits in the socket right behind the answer: the result is the answer
+  \cup { WireScript("wire-stray-" \o ToString(r[2]), FALSE, "stray-behind", r,
+                    << [rule |-> "lost", when |-> <<IsPt(0)>>, ifstate |-> [name |-> "b", lt |-> 1], effects |-> << [k |-> "inc", name |-> "b"] >>, datagrams |-> <<>>],
+                       [rule |-> "answer+stray", when |-> <<IsPt(0)>>,
+                        datagrams |-> NowValid(NullReply(7, 55, 0, Guid16), 0) \o Now(NullReply(7, 1, 0, [i \in 1..15 |-> 238])) ] >>,
+                    [k |-> "call", api |-> "Method", method |-> "GetSystemGUID", on |-> "", margs |-> <<>>, label |-> "guid", target |-> "conn", ctx |-> [ms |-> r[1]],
+                     exp |-> [prop |-> "C11", vprop |-> "C11", outcome |-> "equals", value |-> Guid16]]) : r \in {<<6000, 300>>} }
+Scripts == IF Family = "metrics" THEN MetricScripts ELSE IF Family = "retrytime" THEN RetryTimeScripts ELSE IF Family = "udpwire" THEN WireScripts ELSE
   LET rs == IF Full \/ Family = "all" THEN Ratios ELSE {r \in Ratios : TRUE} IN
   UNION { { Sessionless(f, r), InSession(f, r), Close(f, r) } : f \in AllFaults, r \in rs }
   \cup { HandshakeLeg(f, leg, r) : f \in AllFaults \cup {"trunc"}, leg \in 1..3, r \in (IF Full THEN rs ELSE {<<250, 1000>>, <<900, 300>>}) }
@@ -147,7 +178,8 @@ Scripts == IF Family = "metrics" THEN MetricScripts ELSE IF Family = "retrytime"
   \* (a deadline well below the smallest pause of the library's back-off, 250 ms, makes an uninterruptible wait show every time)
   \cup { HandshakeLeg("status01", 1, r) : r \in {<<60, 300>>, <<250, 1000>>, <<400, 400>>, <<900, 300>>} }
   \cup { SdrModifiedForever(r) : r \in {<<100, 300>>, <<400, 400>>, <<900, 300>>} }
-Header == [header |-> TRUE, family |-> "timing", defs |-> SessionDefs(S) @@ [ReqPlainT |-> ReqPlain(S)], stable |-> <<"SIK", "K1", "K2">>]
+Header == [header |-> TRUE, family |-> "timing", defs |-> SessionDefs(S) @@ [ReqPlainT |-> ReqPlain(S)], stable |-> <<"SIK", "K1", "K2">>,
+           prefixes |-> [hs |-> HandshakeSteps(S)]]
 ASSUME PrintT(<<"HEADER", ToJson(Header)>>)
 ASSUME \A s \in Scripts : PrintT(<<"SCRIPT", ToJson(s)>>)
 ASSUME PrintT(<<"COUNT", ToJson([n |-> Cardinality(Scripts)])>>)
